@@ -18,10 +18,12 @@ def tables(ctx):
     return core.tables_dir(ctx, tuple(sorted({n // 2 for n in NNS_ALL if n >= 2} | {1})), NNS_ALL)
 
 
-def api_ob(tdir, api, nn, mt=0, avx=0, rsz=2, asz=2, asl=None, nrows=2, ncols=2, offs=0, flags=("--slice-formula",), tag="", timeout=None, arena=0):
+def api_ob(tdir, api, nn, mt=0, avx=0, rsz=2, asz=2, asl=None, nrows=2, ncols=2, offs=0, flags=("--slice-formula",), tag="", timeout=None, arena=0, inplace=False):
     d = {"API": api, "NN": nn, "MM": nn // 2, "MT": mt, "AVX": avx, "RSZ": rsz, "ASZ": asz, "ASL": asl if asl is not None else nn, "NROWS": nrows, "NCOLS": ncols, "OFFS": offs}
     if arena:
         d["ARENA"] = arena
+    if inplace:
+        d["INPLACE_IDFT"] = None
     name = "%s%s/%s/N=%d/avx=%d" % (tag, APIN[api], "ntt120" if mt else "fft64", nn, avx)
     if api in (1, 2, 3, 5, 8, 9):
         name += "/res=%d/a=%d" % (rsz, asz)
@@ -31,6 +33,8 @@ def api_ob(tdir, api, nn, mt=0, avx=0, rsz=2, asz=2, asl=None, nrows=2, ncols=2,
         name += "/rows=%d/cols=%d" % (nrows, ncols)
     if offs:
         name += "/offs=%d" % (8 * offs)
+    if inplace:
+        name += "/inplace"
     if arena:
         name += "/arena=%s" % ("fwd" if arena == 1 else "rev")
         # one object holds every buffer: keep its elements as separate SSA symbols (default limit 64), otherwise every access goes through the array theory
